@@ -1,5 +1,5 @@
 HOOK_COMMITS = ["1ae5c62"]
-FIX_COMMITS = ["42a7f6e", "a52dade"]
+FIX_COMMITS = ["42a7f6e", "a52dade", "29629a0"]
 
 ENGINES = [
     {"name": "stack", "path": "harness/internal/stack", "serves_properties": ["C01", "C02"], "kind_free_text": "in-process server: real disk cache + HTTP handler on loopback TCP behind a ServeMux + gRPC over bufconn with panic-recording interceptors"},
@@ -10,7 +10,21 @@ ENGINES = [
 _PBT = "property-based testing (pgregory.net/rapid): "
 
 CLAIMS = {
-    "C01": dict(
+    "C03": dict(
+        technique=_PBT + "stateful model-based testing (t.Repeat state machine) with an invariant after every step: running counters vs recomputation over the index snapshot plus harness-held reservations",
+        text="Generated operation histories (puts, overwrites with other sizes, lookups, failing uploads, uploads HELD open mid-stream and later completed/aborted/corrupted, backend fetches with faults) on a small cache under pressure. After every step, including while requests are open: total = sum round4k(on-disk) + R, reserved = R, total <= max_size, logical total and item count exact, /status agrees; R is what the harness itself holds open. A second machine drives the LRU index directly (sizes at block and max_size edges, oversized reservations).",
+        note="Requests overlap only by being held open between steps (real interleavings are C07's). Reservation admission for held uploads is predicted from the statement (size <= max_size and size + R <= max_size). max_size <= 2^50 in the direct LRU machine (values near MaxInt64 are not reachable through the GiB-valued setting).",
+    ),
+    "C04": dict(
+        technique=_PBT + "stateful testing with a directory-vs-index oracle at quiescence; files re-read with an independent implementation of the cas.v2 format",
+        text="Same history machine as C03 weighted towards failures at every stage (reservation refused, hash/size mismatch, reader error mid-stream, commit refused, held uploads aborted, backend fetches failing before/during/after the stream). Whenever nothing is in flight and the deletion backlog is exactly zero: the set of regular files equals the harness's own naming function applied to the index snapshot, lengths equal the recorded on-disk sizes, compressed CAS files parse and decode (independent reader, two zstd decoders) to the logical size and SHA-256 of the key, raw files are complete and hold the last accepted bytes.",
+        note="Quiescence is observed through the verif hook VerifQueuedEvictionBytes (exact, polled). Backend content faults that keep the length (a bit-flip adversary) are outside C12's trust statement and are not injected for headerless entries.",
+    ),
+    "C05": dict(
+        technique=_PBT + "stateful testing with history invariants (LRU order, pressure-only, minimality, presence, oversize) computed from a harness-side logical clock of uses and real file sizes",
+        text="Sequential generated histories of puts (sizes relative to max_size, compressible or not, overwrites with larger/smaller values) and every lookup kind that must refresh recency (Get, Contains, FindMissingCasBlobs, validated-ActionResult dependency check). After each operation: no evicted entry was certainly used more recently than a survivor; evictions only if on-disk total + need > max_size; re-adding the most recently used victim would overflow; accepted uploads are present; items with logical size > max_size are rejected and evict nothing.",
+        note="Uses real file sizes (stat) rather than the index's on-disk sizes, so a mis-accounted entry cannot hide an unnecessary eviction. Ties inside one multi-key operation are incomparable and tolerated; lookups with a mismatching size are not generated (the statement does not fix whether they are uses).",
+    ),    "C01": dict(
         technique=_PBT + "differential against the harness's own SHA-256/length of the bytes it sent, over generated blob x corruption x 10 write paths x storage mode x zstd codec; compressed payloads judged by two independent decoders",
         text="Generated-input search through the full in-process stack: every case uploads one blob (pristine or with one corruption of data, size, hash, compression or framing) through one of the ten CAS write paths; acknowledged => logical bytes match the declared digest and the blob is then reported present and read back identically; pristine => acknowledged; anything else => error status and the claimed digest absent. Some cases start with the pristine blob already stored so that wrong-size re-uploads meet an existing entry.",
         note="Fresh cache per case; uploads that name an already-present digest (incl. the always-present empty blob) are outside the MUST classes because C16 allows the early return. Blobs up to ~3 MiB. FetchBlob upstream is a harness HTTP server on loopback.",
@@ -22,4 +36,4 @@ CLAIMS = {
 }
 
 _TODO = "check not built yet in this session (claimed once its check exists); technique applies"
-NOT_APPLICABLE = {p: _TODO for p in ["C03", "C04", "C05", "C06", "C07", "C08", "C09", "C10", "C11", "C12", "C13", "C14", "C15", "C16", "C17", "C18", "C19", "C20"]}
+NOT_APPLICABLE = {p: _TODO for p in ["C06", "C07", "C08", "C09", "C10", "C11", "C12", "C13", "C14", "C15", "C16", "C17", "C18", "C19", "C20"]}
